@@ -341,12 +341,22 @@ func AuxLayout(name, content string) string {
 	return content
 }
 
-// TipFile lays a list of tip names out as a tip file: "lines" = one name per line; "commas" = all
+// TipFile lays a list of tip names out as a tip file: "lines" = one name per line; "blank" = the same with empty lines between groups of names; "commas" = all
 // names on one line; "long" = one line in which names that are in no tree ("zzpad<i>", "_" runs)
 // push the name names[straddle%len] across the byte offset boundary (a multiple of bufio's
 // 4096-byte buffer); "exact" = one line without end of line whose length is exactly boundary bytes.
 func TipFile(names []string, layout string, boundary, straddle int) string {
 	switch layout {
+	case "blank":
+		// one name per line, an empty line after every second name (groups of names typed by hand)
+		var b strings.Builder
+		for i, n := range names {
+			b.WriteString(n + "\n")
+			if i%2 == 1 && i < len(names)-1 {
+				b.WriteString("\n")
+			}
+		}
+		return b.String()
 	case "commas":
 		return strings.Join(names, ",") + "\n"
 	case "long":
